@@ -13,7 +13,7 @@ import (
 func init() {
 	register(&propDef{
 		ID:          "C07",
-		Explanation: "Decides pairing, provenance and counter agreement — the structural reasons the source map is right — for ALL sites: R1 on every emission path of the generator (GEM), every write of a Go expression's text is the first text of its write and is immediately followed by sourceMap.Add(that same expression, the range returned by that very write), and every Add is preceded by such a write; R2 no parser.Expression value is fabricated inside the generator (expressions and their ranges come from the parser); R3 in SourceMap.Add the source/target column and index counters advance by the same rune length, both index counters take the newline step, and every source→target store has the mirrored target→source store; in the range writer's write, index and column advance by the same length and a newline resets the column and increments the line; R4 symbol ranges run from the first emission's start to the last emission's end with nothing emitted after registration; R5 the range writer returns the range of the text argument alone. R6 the generator rewrites attribute lists only on a deep copy of the parsed ones (the copier recurses into every nested attribute list), so a second generation of the same parsed file maps the same expressions. R7 the range writer's raw write sends every rune of its argument to the output (no skipped or conditional runes). R8 the parser's recorded positions, which the source map starts from, are not edited coordinate by coordinate: direct writes to Index/Line/Col exist only as a paired constant adjustment of Index and Col (same rule as C06.R1(d)). NOT decided: byte equality of mapped positions on concrete files. R9 the text of every Expression is the consumed input (what the source map walks from Range.From), constants in it are constants that were parsed. R10 the range recorded for text made of parser results brackets that text (run of C06.R9: a start read once before a loop records every later round at the first round's position).",
+		Explanation: "Decides pairing, provenance and counter agreement — the structural reasons the source map is right — for ALL sites: R1 on every emission path of the generator (GEM), every write of a Go expression's text is the first text of its write and is immediately followed by sourceMap.Add(that same expression, the range returned by that very write), and every Add is preceded by such a write; R2 no parser.Expression value is fabricated inside the generator (expressions and their ranges come from the parser); R3 in SourceMap.Add the source/target column and index counters advance by the same rune length, both index counters take the newline step, and every source→target store has the mirrored target→source store; in the range writer's write, index and column advance by the same length and a newline resets the column and increments the line; R4 symbol ranges run from the first emission's start to the last emission's end with nothing emitted after registration; R5 the range writer returns the range of the text argument alone. R6 the generator rewrites attribute lists only on a deep copy of the parsed ones (the copier recurses into every nested attribute list), so a second generation of the same parsed file maps the same expressions. R7 the range writer's raw write sends every rune of its argument to the output (no skipped or conditional runes). R8 the parser's recorded positions, which the source map starts from, are not edited coordinate by coordinate: direct writes to Index/Line/Col exist only as a paired constant adjustment of Index and Col (same rule as C06.R1(d)). NOT decided: byte equality of mapped positions on concrete files. R9 the text of every Expression is the consumed input (what the source map walks from Range.From), constants in it are constants that were parsed. R10 the range recorded for text made of parser results brackets that text (run of C06.R9: a start read once before a loop records every later round at the first round's position). R3 also (round 11): a row of the two line tables is stored only where the fetch of that very row missed (a row that is replaced forgets what an earlier Add recorded on the line), and the length by which the range writer and SourceMap.Add advance is, at every assignment, the rune's encoded length — the constant 1 only under an exact ASCII test (< 0x80) whose other arm takes the encoded length.",
 		Assumptions: []string{"parser ranges are faithful (C06)", "utf8.RuneLen/EncodeRune agree on rune length"},
 		Trusted:     []string{"go/types", "x/tools go/packages"},
 		Run:         runC07,
@@ -267,6 +267,7 @@ func counterAgreement(c *Ctx, rule string) {
 		}
 		c.check(mirrored, rule, key+"|mirrored-stores", c.pos(fd.Pos()), fmt.Sprintf("%d position stores, each with its mirror", len(stores)),
 			"SourceMap.Add: "+why)
+		rowsCreatedOnlyWhenAbsent(c, rule, key, pp, unit)
 		// (b) the four counters advance by the same rune length inside the rune loop; both indexes take the newline step
 		var cols, idxs []string
 		for _, s := range stores {
@@ -358,6 +359,9 @@ func counterAgreement(c *Ctx, rule string) {
 		}
 		// the rune length is the encoded length: it may only be replaced where it is itself invalid (negative)
 		if lenVar != "" {
+			if w := encodedLenVar(info, []ast.Node{unitBody}, lenVar); w != "" {
+				c.viol(rule, key+"|rune-length-on-every-path", c.pos(fd.Pos()), "SourceMap.Add: "+w+" — the counters advance by something other than the bytes the rune occupies, so the rest of the line maps to the wrong bytes")
+			}
 			okLen, whyLen := true, ""
 			ast.Inspect(unitBody, func(n ast.Node) bool {
 				is, ok := n.(*ast.IfStmt)
@@ -482,6 +486,15 @@ func counterAgreement(c *Ctx, rule string) {
 			})
 		}
 		ok := incBy["Col"] != "" && incBy["Col"] == incBy["Index"] && nlReset && nlInc
+		if lv := incBy["Col"]; lv != "" && !strings.Contains(lv, ",") {
+			var nodes []ast.Node
+			for _, tb := range trackBodies {
+				nodes = append(nodes, tb)
+			}
+			w := encodedLenVar(ginfo, nodes, lv)
+			c.check(w == "", rule, key+"|advance-is-encoded-length", c.pos(wfd.Pos()), lv+" is the encoded length of the rune wherever it is assigned",
+				"the range writer: "+w+" — the bytes written and the position advanced no longer agree with the encoded length of the rune the source map counts (a rune at the boundary, U+0080, is written as one byte and counted as one while the map advances by two), so the rest of the expression line maps to the wrong bytes")
+		}
 		c.check(ok, rule, key+"|position-tracking", c.pos(wfd.Pos()), "Index and Col advance by "+incBy["Col"]+"; newline increments Line and resets Col",
 			fmt.Sprintf("range writer position tracking changed (Col += %q, Index += %q, newline: Line++ %v, Col=0 %v): every returned range — and so every source-map entry — would be wrong", incBy["Col"], incBy["Index"], nlInc, nlReset))
 		// From is captured before the loop, To after it
